@@ -28,7 +28,9 @@ META = {
         "histories: Hypothesis RuleBasedStateMachine over a pool of ~250 inputs per worker (valid/invalid Python, every xonsh form, call/with/"
         "subprocess macros, path literals incl. pf, f-strings, inputs failing in the first and in the second pass) x options (mode, py_version); "
         "rules: parse(i) / parse_file(i) / parse_threads(batch, 2-8 threads, switch interval 1e-6..5e-3, start barrier) / keep(i) / verbose "
-        "parse / scribble(i) (parse, then rename, relocate and rewrite the returned tree in place: the caller owns it); all histories of a worker run in ONE process, so state also carries over between histories.  Reference outcome of every (input, "
+        "parse / scribble(i) (parse, then rename, relocate and rewrite the returned tree in place: the caller owns it) / "
+        "parse inside an except clause (ImportError, SyntaxError, UnicodeEncodeError, KeyError being handled) / parse while every clock of "
+        "the time module jumps 10 s per reading; all histories of a worker run in ONE process, so state also carries over between histories.  Reference outcome of every (input, "
         "options) = canonical outcome computed in FRESH interpreters (batches, and one parse per process for a sample; batch and single "
         "references must agree).  Oracle: every result equals the reference; after every step every kept tree re-dumps identically and the "
         "Load/Store/Del singletons carry no instance attributes, and the interpreter-wide settings (recursion limit, cwd, locale, warnings filters, "
@@ -217,6 +219,42 @@ def scribble_tree(tree):
                 setattr(n, a, v + 1000)
 
 
+def parse_in_handler(it, what):
+    try:
+        if what == "ImportError":
+            raise ImportError("No module named 'nowhere'")
+        if what == "SyntaxError":
+            compile("x = = 1", "<other>", "exec")
+        if what == "UnicodeEncodeError":
+            "\ud800".encode("utf-8")
+        raise KeyError("k")
+    except Exception:  # noqa: BLE001
+        return parse_one(it["src"], it["mode"], it["version"])
+
+
+def parse_with_racing_clock(it):
+    import time
+
+    names = ["time", "monotonic", "perf_counter", "process_time", "thread_time", "time_ns", "monotonic_ns", "perf_counter_ns"]
+    saved = {n: getattr(time, n) for n in names}
+    tick = [0]
+
+    def racing(scale):
+        def clock():
+            tick[0] += 10
+            return tick[0] * scale
+
+        return clock
+
+    try:
+        for n in names:
+            setattr(time, n, racing(10**9 if n.endswith("_ns") else 1))
+        return parse_no_watchdog(it["src"], it["mode"], it["version"])
+    finally:
+        for n, f in saved.items():
+            setattr(time, n, f)
+
+
 def make_machine(rec, pool, refs, tmpdir):
     S = repo_modules()["S"]
     XP = XonshParser()
@@ -338,6 +376,22 @@ def make_machine(rec, pool, refs, tmpdir):
             if o.kind == "tree":
                 scribble_tree(o.tree)
 
+        @rule(i=idx, what=st.sampled_from(["ImportError", "SyntaxError", "UnicodeEncodeError", "KeyError"]))
+        def parse_in_handler(self, i, what):
+            """the outcome does not depend on what the caller happens to be doing: here, handling an exception"""
+            it = pool[i]
+            steps_log.append(["in-handler", i, what])
+            self.note(i, "parse-in-handler")
+            expect(i, parse_in_handler(it, what), "parse-inside-except-clause")
+
+        @rule(i=idx)
+        def parse_with_racing_clock(self, i):
+            """... nor on the time: every clock of the time module jumps ten seconds per reading while this parse runs"""
+            it = pool[i]
+            steps_log.append(["racing-clock", i])
+            self.note(i, "parse-with-racing-clock")
+            expect(i, parse_with_racing_clock(it), "parse-with-racing-clock")
+
         @invariant()
         def kept_trees_unchanged(self):
             for i, tree, d in self.kept:
@@ -381,6 +435,14 @@ def check(rec, case):
 
     for st_ in steps:
         kind = st_[0]
+        if kind == "in-handler":
+            if differs("parse-inside-except-clause", st_[1], parse_in_handler(pool[st_[1]], st_[2]), refs[st_[1]]):
+                return
+            continue
+        if kind == "racing-clock":
+            if differs("parse-with-racing-clock", st_[1], parse_with_racing_clock(pool[st_[1]]), refs[st_[1]]):
+                return
+            continue
         if kind == "scribble":
             it = pool[st_[1]]
             o = outcome(it["src"], it["mode"], **({"py_version": tuple(it["version"])} if it["version"] else {}))
